@@ -336,7 +336,7 @@ func extractOption(nodes map[string]*chanCall, opts ...Option) (map[string][]any
 				if c.action.optionType == nil {
 					// subgraph
 					optMap[name] = append(optMap[name], opt)
-				} else if reflect.TypeOf(opt.options[0]) == c.action.optionType { // assume that types of options are the same
+				} else if optionTypeFits(reflect.TypeOf(opt.options[0]), c.action.optionType, false) { // assume that types of options are the same
 					optMap[name] = append(optMap[name], opt.options...)
 				}
 			}
@@ -369,9 +369,9 @@ func extractOption(nodes map[string]*chanCall, opts ...Option) (map[string][]any
 					optMap[curNodeKey] = append(optMap[curNodeKey], nOpt)
 				} else {
 					// designate to component
-					if curNode.action.optionType != reflect.TypeOf(opt.options[0]) { // assume that types of options are the same
-						return nil, fmt.Errorf("option type[%s] is different from which the designated node[%s] expects[%s]",
-							reflect.TypeOf(opt.options[0]).String(), path, curNode.action.optionType.String())
+					if !optionTypeFits(reflect.TypeOf(opt.options[0]), curNode.action.optionType, true) { // assume that types of options are the same
+						return nil, fmt.Errorf("option type[%v] is different from which the designated node[%s] expects[%s]",
+							reflect.TypeOf(opt.options[0]), path, curNode.action.optionType.String())
 					}
 					optMap[curNodeKey] = append(optMap[curNodeKey], opt.options...)
 				}
@@ -395,6 +395,22 @@ func extractOption(nodes map[string]*chanCall, opts ...Option) (map[string][]any
 	}
 
 	return optMap, nil
+}
+
+// optionTypeFits tells whether an option value of type actual can be handed to a node that takes options of type expected.
+// An undesignated option is routed by its type: it only reaches a node with an interface option type if that
+// interface has methods (everything implements `any`, which would make every option of every component reach it).
+func optionTypeFits(actual, expected reflect.Type, designated bool) bool {
+	if actual == nil || expected == nil {
+		return false
+	}
+	if actual == expected {
+		return true
+	}
+	if expected.Kind() == reflect.Interface && (designated || expected.NumMethod() > 0) {
+		return actual.Implements(expected)
+	}
+	return false
 }
 
 func mapToList(m map[string]any) []any {
